@@ -69,8 +69,18 @@ func plant(c Cfg, p Planted) (Cfg, string) {
 	case 3:
 		c.Credentialed = true
 		c.TolInsecure = false
-		c.Origins = insertAt(c.Origins, p.Pos, "http://example.com")
-		return c, "insecure origin with credentials"
+		// plain-http origins on public-looking domains; those of the dictionary (dict.go) first
+		cands := []string{"http://example.com"}
+		for _, hs := range [][]string{dict.hosts.novel, dict.hosts.all} {
+			for _, h := range hs {
+				if strings.Contains(h, ".") && !isIPHost(h) && !strings.HasSuffix(h, "localhost") && !strings.HasSuffix(h, ".") && len(cands) < 40 {
+					cands = append(cands, "http://"+h, "http://*."+h, "http://sub."+h)
+				}
+			}
+		}
+		v := cands[a%len(cands)]
+		c.Origins = insertAt(c.Origins, p.Pos, v)
+		return c, "insecure origin with credentials " + v
 	case 4:
 		c.PNA, c.PNANoCors = true, true
 		return c, "both PNA modes"
@@ -93,10 +103,15 @@ func plant(c Cfg, p Planted) (Cfg, string) {
 		c.ResponseHeaders = insertAt(c.ResponseHeaders, p.Pos, v)
 		return c, "bad response header " + v
 	case 8:
-		c.MaxAge = badMaxAge[a%len(badMaxAge)]
+		cands := append(append(append([]int{}, badMaxAge...), dict.badMaxAge.novel...), dict.badMaxAge.all...)
+		c.MaxAge = cands[a%len(cands)]
 		return c, "max-age out of bounds"
 	case 9:
-		c.Status = badStatus[a%len(badStatus)]
+		cands := append(append(append([]int{}, badStatus...), dict.badStatus.novel...), dict.badStatus.all...)
+		c.Status = cands[a%len(cands)]
+		if c.Status == 0 {
+			c.Status = 199 // 0 means "default"
+		}
 		return c, "status out of bounds"
 	case 10:
 		if a%2 == 0 {
